@@ -67,6 +67,11 @@ def mix_pool(path, part="all"):
               "sum(map(&to_number(to_string(n)), @))", "contains(@[*].s, '\u043a\u043b\u044e\u0447-000123')", "reverse(@)[0].id", "length(to_string(@))",
               "sort_by(@, &to_string(n))[*].id | [::61]", "@[?starts_with(s, '\u043a\u043b\u044e\u0447-0001')].id | [::7]", "@[?ends_with(e, '7')].id | [::29]"):
         cases.append((t, recs))
+    # failures whose report carries a position: a by-function refusing its key after a function call inside the key expression returned
+    # (long arguments, so that other threads' calls fall inside)
+    edoc = [{"v": list(range(1500))}, {"v": ["s%d" % i for i in range(1500)]}]
+    for t in ("sort_by(@, &max(v))", "max_by(@, &min(v))", "min_by(@, &sort(v)[0])", "map(&abs(max(v)), @)", "sort_by(@, &length(v) && max(v))", "[*].sum(v)", "sort_by(@, &reverse(v)[0])"):
+        cases.append((t, edoc))
     jdoc = {"j": json.dumps(list(range(2000))), "o": ' {"a":1}', "n": "12", "w": " 4", "b": "[1", "z": "-0", "arr": ["[1]", "2", "{}", "x"]}
     for t in ("to_number(j)", "to_number(o)", "to_number(n)", "to_number(w)", "[to_number(j), to_number(n)]", "to_number(b)", "to_number(z)", "map(&to_number(@), arr)",
               "to_number(to_string(`[1, 2]`))"):
@@ -76,9 +81,9 @@ def mix_pool(path, part="all"):
               "a[?@ == `2`]", "merge(b, `{\"c\": {\"x\": [1]}}`)", "keys(@)", "values(b)"):
         cases.append((t, vdoc))
     if part == "sorting":          # only the long-array cases: two threads are inside the same function with different kinds of keys most of the time
-        cases = [c for c in cases if c[1] is recs]
+        cases = [c for c in cases if c[1] is recs or c[1] is edoc]
     elif part == "modes":          # only the short ones: to_number on document text against literal compiles and re-read documents
-        cases = [c for c in cases if c[1] is not recs]
+        cases = [c for c in cases if c[1] is not recs and c[1] is not edoc]
     with open(path, "w") as f:
         for t, d in cases:
             f.write(json.dumps({"text": cps(t), "doc": to_tagged(d)}) + "\n")
@@ -238,15 +243,27 @@ def run(prop, tier, seed, work, ev):
             for txt in ("'a\\'b%d'" % i, "`\"x\\`y%d\"`" % i, "'%d\\'' == `\"%d'\"`" % (i, i), "`[\"\\`\", %d]`[1]" % i, "\"k`x\" || '\\'%d'" % i,
                       "length('\\'\\'%d')" % i, "`{\"\\`%d\": %d}`" % (i, i), "'plain%d'" % i):
                 f.write(json.dumps({"text": common.cps(txt), "doc": ldoc}) + "\n")
+        # ... and of texts full of integer tokens, in and out of the 32-bit range (whatever the conversion of one lexeme notes down, it is its own)
+        idoc = common.to_tagged({"a": [[[[1]]]], "foo": list(range(20))})
+        for i in range(12):
+            for txt in ("a[0][0][0][0]", "foo[1][2]", "foo[%d:%d:%d]" % (i, i + 5, 1 + i % 3), "foo[4294967299]", "foo[2147483648]", "foo[-2147483649]", "foo[1:99999999999]",
+                        "foo[2147483647]", "foo[-2147483648]", "[foo[%d], foo[-%d], foo[1%d]]" % (i, i + 1, i), "foo[::%d9999999999]" % (i + 1), "a[0][0] | [0][0]"):
+                f.write(json.dumps({"text": common.cps(txt), "doc": idoc}) + "\n")
     n, th, iters = t["lex"]
     xevents = work.path("lex.obs")
     trials("sync-trial", n, th, iters, lp, xevents)
     dpath, total, distinct = distinct_events(xevents)
     ev.extra["thread_events_total"] = ev.extra.get("thread_events_total", 0) + total
     stats, rej = judge("tv/TV_Eval.tla", None, dpath, work)
-    ev.add_judged("concurrent compiles of texts with escaped delimiters: %d trials x %d threads (%d events, %d distinct judged)" % (n, th, total, distinct),
+    ev.add_judged("concurrent compiles of texts with escaped delimiters and with integer tokens in and out of range: %d trials x %d threads (%d events, %d distinct judged)" % (n, th, total, distinct),
                   stats, rej, dpath, nsamples=1)
     rejects += rej
+    lseq = work.path("lexseq.obs")
+    trials("sync-trial", 1, 1, 4 * common.count_lines(lp), lp, lseq)
+    with open(xevents, "a") as f:
+        for line in open(lseq):
+            f.write(line)
+    rejects += schedule_dependent(xevents, work, ev, "concurrent compiles (threaded trials and one single-threaded trial)")
     # long arrays: whatever an implementation does with them internally, every thread of every trial sees the sequential result
     lgp = work.path("long.cases")
     long_pool(lgp)
